@@ -318,6 +318,8 @@ def gen_file(rng):
     blank_pool = ["", "", "   ", " ", "\t"]
     lines = []
     n_junk = rng.choice([0, 0, 1, 2, 3, 6])
+    if rng.random() < 0.02:
+        n_junk = rng.randint(101, 260)  # a file exported by another tool: mostly lines we do not understand
     n_blank = rng.choice([0, 0, 1, 2, 4])
     items = [("line", t, f) for t, f in ordered]
     for _ in range(n_junk):
